@@ -23,6 +23,7 @@ INT, FLOAT, BOOL, ARR, INTLIST, IDL, IDLLIST, BOOLLIST = "Z", "Q", "bool", "(lis
 STR, STRLIST, DICT = "string", "(list string)", "(list (string * Q))"
 ELT, OPTELT, CONTENT = "E", "(option E)", "(list (option E))"      # timeslice entries of a correlator (abstract element type E)
 VEC, VECLIST, MATX, PERMLIST = "V", "(list V)", "M", "(list (list Z))"      # eigenvectors / reference matrix of _sort_vectors (abstract)
+DICTL = "(list (string * list Z))"      # a dictionary from strings to lists of ints
 MAT2 = "(list (list Q))"      # a two-dimensional numpy float array
 IDLMAP = "(string -> idl)"        # a dictionary name -> configuration list, read only (keys are iterated through an alias)
 EXN = {"IndexError": "IndexError", "ValueError": "ValueError", "ZeroDivisionError": "ZeroDivisionError", "TypeError": "TypeError"}
@@ -276,6 +277,13 @@ class Fn:
             return "(ens_of %s)" % t, STR
         t, ty = self.expr(node.value, env, binds)
         sl = node.slice
+        if ty == DICTL and not isinstance(sl, ast.Slice):
+            i, ti = self.expr(sl, env, binds)
+            if ti != STR:
+                raise TranslateError("%s: dictionary indexed with %s" % (self.name, ti))
+            r = self.fresh()
+            binds.append((r, "py_dictl_get %s %s" % (t, i)))
+            return r, INTLIST
         if ty == IDLMAP and not isinstance(sl, ast.Slice):
             i, ti = self.expr(sl, env, binds)
             if ti != STR:
@@ -467,6 +475,8 @@ class Fn:
             if ty != IDL:
                 raise TranslateError("%s: list(..) of %s" % (self.name, ty))
             return "(mkIdl false (cfgs %s))" % t, IDL
+        if fname == "sorted" and len(node.args) == 1 and isinstance(node.args[0], ast.Name) and env.get(node.args[0].id) == STRLIST:
+            return "(py_sorted_strings %s)" % self.v(node.args[0].id), STRLIST
         if fname == "sorted" and len(node.args) == 1:
             a = node.args[0]
             # sorted(set().union(*idl))
@@ -688,6 +698,18 @@ class Fn:
                 raise TranslateError("%s: multiple assignment" % self.name)
             tgt = s.targets[0]
             b = []
+            if isinstance(tgt, ast.Name) and isinstance(s.value, ast.Dict) and not s.value.keys and self.hints.get(tgt.id) == DICTL:
+                env2 = dict(env)
+                env2[tgt.id] = DICTL
+                return "let %s := ([] : list (string * list Z)) in %s" % (self.v(tgt.id), nxt(env2))
+            if isinstance(tgt, ast.Subscript) and isinstance(tgt.value, ast.Name) and env.get(tgt.value.id) == DICTL \
+                    and not isinstance(tgt.slice, ast.Slice):
+                i, ti = self.expr(tgt.slice, env, b)
+                t, ty = self.expr(s.value, env, b)
+                if ti != STR or ty != INTLIST:
+                    raise TranslateError("%s: dictionary store (%s, %s)" % (self.name, ti, ty))
+                dn = self.v(tgt.value.id)
+                return self.seq(b, "let %s := (dictl_put %s %s %s) in %s" % (dn, dn, i, t, nxt(env)))
             if isinstance(tgt, ast.Name) and isinstance(s.value, ast.Dict) and not s.value.keys:
                 if self.hints.get(tgt.id) != DICT:
                     raise TranslateError("%s: empty dict literal of unknown type (%s)" % (self.name, tgt.id))
@@ -783,6 +805,11 @@ class Fn:
                     raise TranslateError("%s: slice += with (%s, %s, %s)" % (self.name, lo[1], hi[1], ty))
                 b.append((a, "py_slice_add %s %s %s %s" % (a, lo[0], hi[0], t)))
                 return self.seq(b, nxt(env))
+            if isinstance(s.op, ast.Add) and isinstance(tgt, ast.Name) and env.get(tgt.id) == INT:
+                t, ty = self.expr(s.value, env, b)
+                if ty != INT:
+                    raise TranslateError("%s: += of %s to an int" % (self.name, ty))
+                return self.seq(b, "let %s := (%s + %s) in %s" % (self.v(tgt.id), self.v(tgt.id), t, nxt(env)))
             if isinstance(s.op, ast.Mult) and isinstance(tgt, ast.Name) and env.get(tgt.id) == FLOAT:
                 t, ty = self.expr(s.value, env, b)
                 return self.seq(b, "let %s := (%s * %s)%%Q in %s" % (self.v(tgt.id), self.v(tgt.id), self.coerce(t, ty, FLOAT), nxt(env)))
@@ -936,6 +963,25 @@ def frag_drho(fn):
     return [body[0], ast.Return(value=v.args[0])]
 
 
+def frag_sort_corr_mapping(fn):
+    """sort_corr: the statements that build `mapping` (everything before corr_sorted is allocated), returning mapping."""
+    body = [st for st in fn.body if not (isinstance(st, ast.Expr) and isinstance(st.value, ast.Constant))]
+    cut = [k for k, st in enumerate(body) if isinstance(st, ast.Assign) and isinstance(st.targets[0], ast.Name) and st.targets[0].id == "corr_sorted"]
+    if len(cut) != 1:
+        raise TranslateError("sort_corr: the allocation of corr_sorted was not found exactly once")
+    rest = body[cut[0]:]
+    want = ast.parse("""
+corr_sorted = np.zeros_like(corr)
+for i in range(corr.shape[0]):
+    for j in range(corr.shape[0]):
+        corr_sorted[i][j] = corr[mapping[i]][mapping[j]]
+return corr_sorted
+""").body
+    if [_d(x) for x in rest] != [_d(x) for x in want]:
+        raise TranslateError("sort_corr: the permutation of the matrix is not corr_sorted[i][j] = corr[mapping[i]][mapping[j]] over the full index range")
+    return body[:cut[0]] + [ast.Return(value=ast.Name(id="mapping", ctx=ast.Load()))]
+
+
 def frag_init_idl_list(fn):
     """Obs.__init__: the branch `elif isinstance(idx, (list, np.ndarray)):` of the loop that stores idl; `self.idl[name] = X` becomes `return X`."""
     want = _d(ast.parse("isinstance(idx, (list, np.ndarray))", mode="eval").body)
@@ -1002,6 +1048,9 @@ SIGS = [
          extra_params=[("v_jacks", ARR)], env={"jacks": ARR}),
     dict(coq="obs_init_idl_from_list", py="Obs.__init__", fragment=frag_init_idl_list, params=[], ret=IDL,
          extra_params=[("v_idx", IDL)], env={"idx": IDL}),
+    dict(coq="sort_corr_mapping", py="sort_corr", fragment=frag_sort_corr_mapping, params=[], ret=INTLIST,
+         extra_params=[("v_kl", STRLIST), ("v_sizes", "(string -> Z)")], env={"kl": STRLIST},
+         aliases={"len(yd[k])": ("(v_sizes v_k)", INT)}, hints={"posd": DICTL, "mapping": INTLIST}),
     dict(coq="_reduce_deltas", py="_reduce_deltas", params=[("deltas", ARR), ("idx_old", IDL), ("idx_new", IDL)], ret=ARR),
     dict(coq="covariance_calc_gamma", py="_covariance_element.calc_gamma", needs=["_reduce_deltas"],
          params=[("deltas1", ARR), ("deltas2", ARR), ("idx1", IDL), ("idx2", IDL), ("new_idx", IDL)], ret=FLOAT),
